@@ -1,5 +1,6 @@
 import Mochi.Model.Broker
 import Mochi.Lemmas.BrokerInv
+import Mochi.Lemmas.BrokerQosDelivery
 /-!
 # C10 — Packet identifiers are unique per direction and never cross-contaminate
 
@@ -74,3 +75,73 @@ example : ∃ c ∈ (run (init {}) demoHistory).objs, c.inflight ≠ [] := by de
 example : (getObj (run (init {}) demoHistory) 1).inflight.map (·.id) = [3] := by decide
 
 end Mochi.Broker
+
+/-! ## A delivery of QoS > 0, classified completely (C03 / C04 / C10 / C11)
+
+Lemmas: `Mochi/Lemmas/BrokerQosDelivery.lean` (namespace `Q1`: `verdict`, `core_eq`).  Client object `i` is a live
+network client (`Q1.Live`: exists, open, not inline, peer not gone, no outbound topic aliases); `pk` is an application
+message whose copy for the subscription `sub` has QoS `shapeQos s.caps sub pk.qos > 0`.  The four cases are decidable
+conditions on the state BEFORE the delivery; `Q1.copyOf s i sub pk pid` is `shapeOut …` with `id := pid`;
+`Q1.droppedState s` is `s` with `inflightDropped + 1`; `Q1.storedState s i m dq` is `s` with the record `m` APPENDED to
+the in-flight list of object `i`, its cursor set to `m.id`, `dq` taken from its send quota, and `info.inflight + 1`. -/
+namespace Mochi.Broker
+
+/-- **Item 1.**  (a) in-flight limit reached: nothing written, dropped counter + 1, nothing stored.
+    (b) `nextPacketID = none`: nothing written, dropped counter + 1, the exhaustion event.
+    (c) send quota exhausted under a Receive Maximum (`maxSend > 0 ∧ sendQuota = 0`): nothing written, the copy is
+    STORED under a fresh identifier with `expiry = -1` (deferred), in-flight counter + 1, quota untouched.
+    (d) otherwise: exactly one output, `.wrote conn (.publish ver m …)` with `m` the copy — QoS `q`, `dup = false`, the
+    identifier `pid` returned by `nextPacketID`; the same record is appended to the in-flight list, send quota − 1,
+    in-flight counter + 1.  In (c) and (d) `pid` is in `1..maximumPacketID` and NOT the identifier of any record of
+    the client's in-flight list (`C10_alloc`). -/
+theorem publishToClientCore_qos_shape (s : Server) (i : Nat) (sub : Mochi.Topics.Sub) (pk : Msg) (h : Q1.Live s i) (ht : pk.type = 3)
+    (hq : shapeQos s.caps sub pk.qos > 0) :
+    ((getObj s i).inflight.length ≥ s.caps.maximumInflight →
+      publishToClientCore s i sub false pk = (Q1.droppedState s, [])) ∧
+    (¬ (getObj s i).inflight.length ≥ s.caps.maximumInflight →
+      nextPacketID (getObj s i) s.caps.maximumPacketID = none →
+      publishToClientCore s i sub false pk = (Q1.droppedState s, [.event s!"idexh({hexStr (getObj s i).id})"])) ∧
+    (∀ pid, ¬ (getObj s i).inflight.length ≥ s.caps.maximumInflight →
+      nextPacketID (getObj s i) s.caps.maximumPacketID = some pid →
+      (1 ≤ pid ∧ pid ≤ s.caps.maximumPacketID ∧ ∀ m ∈ (getObj s i).inflight, m.id ≠ pid) ∧
+      (((getObj s i).sendQuota = 0 ∧ (getObj s i).maxSend > 0) →
+        publishToClientCore s i sub false pk =
+          (Q1.storedState s i { Q1.copyOf s i sub pk pid with expiry := -1 } 0, [])) ∧
+      (¬ ((getObj s i).sendQuota = 0 ∧ (getObj s i).maxSend > 0) →
+        publishToClientCore s i sub false pk =
+          (Q1.storedState s i (Q1.copyOf s i sub pk pid) 1,
+           [.wrote (getObj s i).conn (.publish (getObj s i).ver (Q1.copyOf s i sub pk pid)
+              (decide ((Q1.copyOf s i sub pk pid).expiry > 0) || decide ((Q1.copyOf s i sub pk pid).msgExpiry > 0)))]) ∧
+        (Q1.copyOf s i sub pk pid).qos = shapeQos s.caps sub pk.qos ∧ (Q1.copyOf s i sub pk pid).dup = false ∧
+        (Q1.copyOf s i sub pk pid).id = pid ∧ (Q1.copyOf s i sub pk pid).payload = pk.payload)) := by
+  have e := Q1.core_eq s i sub pk h ht hq
+  unfold Q1.coreResult at e
+  refine ⟨fun ha => ?_, fun ha hn => ?_, fun pid ha hn => ⟨?_, fun hd => ?_, fun hd => ⟨?_, rfl, rfl, rfl, rfl⟩⟩⟩
+  · rw [e, Q1.verdict_limit s i ha]; rfl
+  · rw [e, Q1.verdict_exhausted s i ha hn]; rfl
+  · obtain ⟨a1, a2, a3⟩ := C10_alloc _ _ _ hn
+    refine ⟨a1, a2, fun m hm hid => ?_⟩
+    have := fc11_flGet_none a3 m hm
+    rw [hid] at this
+    simp at this
+  · rw [e, Q1.verdict_deferred s i pid ha hn hd]; rfl
+  · rw [e, Q1.verdict_sent s i pid ha hn hd]; rfl
+
+/-- what `Q1.storedState` and `Q1.droppedState` are, field by field: the record is the LAST of the in-flight list, the
+    other records are kept, the quota loses `dq`, the counters move by one -/
+theorem C10_storedState_fields (s : Server) (i : Nat) (m : Msg) (dq : Nat) (hi : i < s.objs.length) :
+    (getObj (Q1.storedState s i m dq) i).inflight = (getObj s i).inflight ++ [m] ∧
+    (getObj (Q1.storedState s i m dq) i).sendQuota = (getObj s i).sendQuota - dq ∧
+    (getObj (Q1.storedState s i m dq) i).packetID = m.id ∧
+    (Q1.storedState s i m dq).info.inflight = s.info.inflight + 1 ∧
+    (Q1.storedState s i m dq).info.inflightDropped = s.info.inflightDropped ∧
+    (Q1.droppedState s).info.inflightDropped = s.info.inflightDropped + 1 ∧
+    (Q1.droppedState s).info.inflight = s.info.inflight ∧ (Q1.droppedState s).objs = s.objs ∧
+    ∀ k, k ≠ i → getObj (Q1.storedState s i m dq) k = getObj s k := by
+  rw [Q1.getObj_stored s i m dq hi]
+  exact ⟨rfl, rfl, rfl, rfl, rfl, rfl, rfl, rfl, (Q1.only_stored s i m dq).other⟩
+
+end Mochi.Broker
+
+#print axioms Mochi.Broker.publishToClientCore_qos_shape
+#print axioms Mochi.Broker.C10_storedState_fields
